@@ -18,6 +18,7 @@ import (
 	"os"
 	"path/filepath"
 	"runtime/debug"
+	"sort"
 	"strings"
 
 	"go.sia.tech/core/types"
@@ -551,6 +552,40 @@ func DirectedFailingReorg(r *vh.Run, rng *vh.RNG, name string, maxReopen int, pu
 	}
 }
 
+// DirectedV1Batches: the v1 regime, every leaf path submitted as ONE batch from the root, lightest
+// leaf first, so that every batch after the first is a multi-block extension or reorg ending on a v1
+// block and the last batch is the one that reaches the final tip.  Reopened at a commit point inside
+// any of those reorgs, the node is offered the very same batches again (same boundaries): their
+// blocks are all stored by then — headers and bodies are written out by the first commit inside the
+// reorg — but "stored" is not "applied", and the node must still adopt the heavier chain.
+func DirectedV1Batches(r *vh.Run, rng *vh.RNG, name string, maxReopen int) {
+	net := chainx.NewNet(rng, 1000, 2000, uint64(2+rng.Intn(2)))
+	var t *chainx.Tree
+	cfg := chainx.GenCfg{Main: 6 + rng.Intn(5), Forks: 2 + rng.Intn(2), MaxBranch: 6, Kinds: c02.Menu(), TxPerBlk: 2}
+	if msg := c02.Guarded(func() { t = chainx.GenTree(rng, net, cfg) }); msg != "" {
+		c := &vh.Case{Name: name}
+		c.Oracle("generator-block-rejected", "%s", msg)
+		r.Add(c)
+		return
+	}
+	var leaves []int
+	for _, l := range t.Leaves() {
+		if t.AllValid(l) {
+			leaves = append(leaves, l)
+		}
+	}
+	sort.Slice(leaves, func(i, j int) bool { return t.Blocks[leaves[i]].Work.Cmp(t.Blocks[leaves[j]].Work) < 0 })
+	var sched [][]int
+	for _, l := range leaves {
+		sched = append(sched, t.PathFromRoot(l))
+	}
+	ids := c02.NewIDs()
+	decls := c02.Declare(t, ids)
+	for _, kind := range []string{"mem", "bolt"} {
+		HistoryVia(r, name+"/"+kind, t, ids, decls, sched, make([]bool, len(sched)), kind, rng.Fork(), true, maxReopen)
+	}
+}
+
 // DirectedCommitFailure: ordinary fork histories in which one commit issued from inside
 // ApplyBlock/RevertBlock fails at the database and the batch is discarded.
 func DirectedCommitFailure(r *vh.Run, rng *vh.RNG, name string, maxReopen int) {
@@ -665,6 +700,12 @@ func Run(r *vh.Run) {
 			for _, kind := range []string{"mem", "bolt"} {
 				HistoryVia(r, fmt.Sprintf("side-then-prevalidated%d/%s", i, kind), t, ids, decls, sched, via, kind, vrng.Fork(), true, maxReopen)
 			}
+		})
+	}
+	for i := 0; i < r.Pick(3, 30); i++ {
+		brng := rng.Fork()
+		c02.Safely(r, fmt.Sprintf("v1-batches%d", i), func() {
+			DirectedV1Batches(r, brng, fmt.Sprintf("v1-batches%d", i), maxReopen)
 		})
 	}
 	for i := 0; i < r.Pick(2, 20); i++ {
